@@ -101,3 +101,23 @@ Theorem C12_blocks_through_the_client : forall cfg st lat, plain st -> in_first_
   forall blocks e d ctr now, e_dl e = Some d -> ctr = dl_next d -> 0 <= ctr <= 255 ->
   client_push cfg st e ctr blocks now lat = push_blocks e ctr blocks.
 Proof. exact client_push_is_push_blocks. Qed.
+
+(* ---- "after any preceding sequence of successful or failed calls": the statements above hold for every ECU state and every client state
+   outside a block, so they apply after any history; for writes this gives the last-write-wins form directly -------------------------- *)
+Theorem C12_last_write_wins : forall cfg st lat, plain st -> in_first_window cfg st (1 + lat) ->
+  forall ws e now, Forall (wf_write cfg) ws ->
+  forall did, abs_did (client_writes cfg st e ws now lat) did = match last_write ws did with Some v => Some v | None => abs_did e did end.
+Proof. exact client_writes_last. Qed.
+Theorem C12_read_after_any_writes : forall cfg st lat, plain st -> in_first_window cfg st (1 + lat) ->
+  forall ws e now now2 did v, Forall (wf_write cfg) ws -> last_write ws did = Some v ->
+  0 < did <= 65535 -> fetch_codec (pc_of cfg) did = inr (Z.of_nat (List.length v)) ->
+  let e1 := client_writes cfg st e ws now lat in
+  let '(out, _, _, _, e2) := react 4 cfg st e1 (CReadDids [did]) now2 lat 0 [] in
+  (exists r, out = ORet (Some (r, enc_values [(did, v)]))) /\ e2 = e1.
+Proof. exact read_after_writes. Qed.
+Print Assumptions C12_read_after_any_writes.
+(* a call refused before anything is sent leaves the ECU, the client state and the clock untouched *)
+Theorem C12_refused_call_changes_nothing : forall cfg st e c now lat mk interp er,
+  (forall n s, run_inner cfg st c n s = single_request cfg st mk interp no_post n s) -> mk = inl er ->
+  exists out, react 4 cfg st e c now lat 0 [] = (out, st, now, [], e).
+Proof. exact react_rejected. Qed.
